@@ -29,6 +29,9 @@ pub struct Case {
     pub profile: ProfileSpec,
     /// a session cookie the client already holds when it connects the first time
     pub prior_session: bool,
+    /// connection 2 presents no session cookie at all (it has to be given a fresh one when it is routed)
+    #[serde(default)]
+    pub no_session2: bool,
     pub adapters: AdapterScript,
     pub from2: From2,
     pub seed1: u64,
@@ -191,7 +194,13 @@ fn decide(case: &Case, info: &mut CaseInfo) -> Verdict {
     let mut login2 = case.login.clone();
     login2.intent = 3;
     login2.auth_cookie = CookieAnswer::Payload(issued.clone());
-    login2.session_cookie = if case.prior_session { CookieAnswer::Payload(prior_session_payload) } else { CookieAnswer::Payload(session_cookies[0].1.clone()) };
+    login2.session_cookie = if case.no_session2 {
+        CookieAnswer::Absent
+    } else if case.prior_session {
+        CookieAnswer::Payload(prior_session_payload)
+    } else {
+        CookieAnswer::Payload(session_cookies[0].1.clone())
+    };
     // connection 2's authentication service would vouch for somebody else: only the cookie can yield the same identity
     let mut adapters2 = case.adapters.clone();
     adapters2.discovery_real_ms = 0;
@@ -218,6 +227,34 @@ fn decide(case: &Case, info: &mut CaseInfo) -> Verdict {
         _ => None,
     });
     let auth_called = !out2.calls("authenticate").is_empty();
+    // session cookie on connection 2: exactly when it presented none (whether or not the auth cookie was accepted)
+    let stored2 = stored(&out2, cookie::SESSION_KEY);
+    let transfer2 = out2.cb.iter().position(|(_, p)| matches!(p, Pkt::CfgTransfer { .. }));
+    if case.no_session2 {
+        info.class("conn2:no_session_cookie");
+        if let Some(t2) = transfer2 {
+            if stored2.len() != 1 {
+                return Verdict::Fail { sig: "session-cookie-count".into(), msg: format!("connection 2 presented no session cookie and was routed, but {} session cookies were stored", stored2.len()) };
+            }
+            if stored2[0].0 > t2 {
+                return Verdict::Fail { sig: "session-cookie-after-transfer".into(), msg: "connection 2: session cookie stored after the Transfer".into() };
+            }
+            match session_fields(&stored2[0].1) {
+                None => return Verdict::Fail { sig: "session-cookie-unparseable".into(), msg: String::from_utf8_lossy(&stored2[0].1).into_owned() },
+                Some((id, host, port)) => {
+                    if host != case.login.host || port != u64::from(case.login.port) {
+                        return Verdict::Fail { sig: "session-cookie-wrong-host".into(), msg: format!("connection 2: session cookie records {host}:{port}, handshake said {}:{}", case.login.host, case.login.port) };
+                    }
+                    let first_id = session_cookies.first().and_then(|(_, p)| session_fields(p)).map(|(i, _, _)| i);
+                    if id.is_nil() || Some(id) == first_id {
+                        return Verdict::Fail { sig: "session-cookie-id-not-fresh".into(), msg: format!("connection 2 was given session id {id}, connection 1 had {first_id:?}") };
+                    }
+                }
+            }
+        }
+    } else if !stored2.is_empty() {
+        return Verdict::Fail { sig: "session-cookie-overwritten".into(), msg: "connection 2 presented a session cookie but was given a new one".into() };
+    }
     if a0 {
         info.class("conn2:cookie_acceptable");
         info.nontrivial = true;
@@ -236,10 +273,6 @@ fn decide(case: &Case, info: &mut CaseInfo) -> Verdict {
                     return Verdict::Fail { sig: "reconnect-identity-differs-in-routing".into(), msg: format!("{kind} on connection 2 saw {}/{}", a["name"], a["uuid"]) };
                 }
             }
-        }
-        // the session cookie the client presented must not be replaced
-        if !stored(&out2, cookie::SESSION_KEY).is_empty() {
-            return Verdict::Fail { sig: "session-cookie-overwritten".into(), msg: "connection 2 presented a session cookie but was given a new one".into() };
         }
     } else {
         info.class("conn2:cookie_not_acceptable");
@@ -287,6 +320,7 @@ impl Check for C10 {
                     login: LoginScript { name, uuid, host, port, ..Default::default() },
                     profile: profile.clone(),
                     prior_session,
+                    no_session2: seed2 % 3 == 0,
                     adapters: AdapterScript { auth: AuthV::Ok(profile), discovery: Some(targets), strategy: StrategyV::Pick(pick), discovery_real_ms: if slow { 1100 } else { 0 }, ..Default::default() },
                     from2,
                     seed1,
@@ -309,7 +343,7 @@ impl Check for C10 {
         (v, info)
     }
     fn rule(&self) -> String {
-        "two-connection histories: (1) Login/Transfer intent without a cookie, fresh authentication with a generated profile (0-3 properties, Unicode), routed to a generated target, client address IPv4/IPv6, secret none/empty/1-64 bytes, prior session cookie or not; (2) Transfer intent presenting what was stored, from the same address / same IP other port / another IP, expiry in {0,1,60,21600,2^40,u64::MAX-10^6,u64::MAX}; non-trivial = secret configured, both connections complete and the reference predicate accepts the issued cookie on connection 2; distinct = distinct case".into()
+        "two-connection histories: (1) Login/Transfer intent without a cookie, fresh authentication with a generated profile (0-3 properties, Unicode), routed to a generated target, client address IPv4/IPv6, secret none/empty/1-64 bytes, prior session cookie or not; (2) Transfer intent presenting what was stored (in a third of the cases without the session cookie: a fresh one must then be issued), from the same address / same IP other port / another IP, expiry in {0,1,60,21600,2^40,u64::MAX-10^6,u64::MAX}; non-trivial = secret configured, both connections complete and the reference predicate accepts the issued cookie on connection 2; distinct = distinct case".into()
     }
     fn assumptions(&self) -> Vec<String> {
         vec![
@@ -318,6 +352,6 @@ impl Check for C10 {
         ]
     }
     fn sample(&self, case: &Case) -> Value {
-        serde_json::json!({"client": case.cfg.client_addr, "secret_len": case.cfg.secret.as_ref().map(|s| s.len()), "expiry": case.cfg.expiry, "intent1": case.intent1, "profile": case.profile, "prior_session": case.prior_session, "targets": case.adapters.discovery.as_ref().map(|d| d.len()), "from2": case.from2})
+        serde_json::json!({"client": case.cfg.client_addr, "secret_len": case.cfg.secret.as_ref().map(|s| s.len()), "expiry": case.cfg.expiry, "intent1": case.intent1, "profile": case.profile, "prior_session": case.prior_session, "conn2_presents_session_cookie": !case.no_session2, "targets": case.adapters.discovery.as_ref().map(|d| d.len()), "from2": case.from2})
     }
 }
